@@ -200,7 +200,9 @@ static int read_block_header(struct bunzip_data *bd, struct bwdata *bw)
 
   // We can add support for blockRandomised if anybody complains.
   if (get_bits(bd,1)) return RETVAL_OBSOLETE_INPUT;
-  if ((bw->origPtr = get_bits(bd,24)) > bd->dbufSize) return RETVAL_DATA_ERROR;
+  /* libxmp: origPtr indexes dbuf[dbufSize]; burrows_wheeler_prep reads
+   * dbuf[origPtr] even when the block is rejected later. */
+  if ((bw->origPtr = get_bits(bd,24)) >= bd->dbufSize) return RETVAL_DATA_ERROR;
 
   // mapping table: if some byte values are never used (encoding things
   // like ascii text), the compression code removes the gaps to have fewer
